@@ -717,6 +717,11 @@ func (g *graph) compile(ctx context.Context, opt *graphCompileOptions) (*composa
 		if node.inputType() == nil || node.outputType() == nil {
 			return nil, fmt.Errorf("node[%s]'s input or output types cannot be inferred: no edge or branch gives the passthrough node a type", key)
 		}
+		// with an input and an output key both types above are map[string]any, but what passes
+		// through the node still has no type (and the node no generic helper) unless something gave it one
+		if node.cr != nil && node.cr.isPassthrough && node.cr.genericHelper == nil {
+			return nil, fmt.Errorf("node[%s]'s input or output types cannot be inferred: no edge or branch gives the passthrough node a type", key)
+		}
 	}
 
 	// every compilation gets its own pre-node handlers: g.handlerPreNode must not grow here,
